@@ -72,7 +72,7 @@ def _count_decorators():
     return n
 
 
-def states(tier, seed):
+def _states_base(tier, seed):
     out = [{"t": "census"}]
     names = sorted(_dispatchers())
     for n in names:
@@ -114,6 +114,19 @@ def states(tier, seed):
 
 def _v(st, what, name, msg):
     return {"fp": {"t": st["t"], "cls": what, "name": name}, "fpkey": {"cls": what, "name": name}, "msg": msg}
+
+
+def states(tier, seed):
+    """quick = the full base lattice; thorough = base lattice + the deep extension."""
+    base = _states_base("thorough", seed)
+    if tier == "quick":
+        return base
+    seen = {digest(s) for s in base}
+    return base + [s for s in _states_deep(seed) if digest(s) not in seen]
+
+
+def _states_deep(seed):
+    return []
 
 
 def execute(st):
